@@ -502,6 +502,7 @@ func checkC15(R *Run) {
 	R.rule("auth-shape", "(shared with C04) the password that logs in is the stored one: Authenticate returns true only through bcrypt.CompareHashAndPassword(hash of AccountManager.Get(login), supplied password) == nil — no second source of truth (cache of earlier successes) that a password change does not reach")
 	R.ruleAuthShape()
 	R.ruleManagerStoresGiven()
+	R.ruleCreateNoOverwrite()
 
 	// ---- acct-shape
 	if g := R.mustFn("(*mobius.YAMLAccountManager).Get"); g != nil {
@@ -737,4 +738,64 @@ func (R *Run) ruleManagerStoresGiven() {
 		R.check(fsCall == "", "manager-stores-given", fname(fn), P.pos(fn.Pos()), "map lookup only", "Get touches the filesystem ("+fsCall+"): a login typed by a client selects a file, so an account can exist for a login that no administrator created")
 	}
 	R.floor("manager-stores-given", 2)
+}
+
+// ruleCreateNoOverwrite (C15, shared with C05): creating an account never replaces the file of an existing one. The
+// file that Create publishes (the destination of its rename, or of a direct write) is, on every path, first looked
+// for with Stat on that very path, and the publishing step is unreachable when the file was found. A test on the
+// in-memory map instead does not do: the file name is the *cleaned* login, several logins ("./admin", "x/../admin")
+// share one file, and a requester holding only the create privilege would overwrite another account.
+func (R *Run) ruleCreateNoOverwrite() {
+	P := R.P
+	R.rule("create-no-overwrite", "YAMLAccountManager.Create publishes the account file only on paths where os.Stat of that same path reported an error (the file does not exist): distinct logins that clean to one file name cannot overwrite each other's account")
+	fn := R.mustFn("(*mobius.YAMLAccountManager).Create")
+	if fn == nil {
+		return
+	}
+	R.analysed(fname(fn))
+	n := 0
+	for _, ci := range callsIn(fn) {
+		c := ci.Common()
+		name := calleeName(c)
+		var dst ssa.Value
+		switch name {
+		case "os.Rename":
+			dst = c.Args[1]
+		case "os.WriteFile", "os.Create":
+			dst = c.Args[0]
+		default:
+			continue
+		}
+		dsym := P.sym(dst)
+		if strings.HasSuffix(dsym, `+".tmp"`) {
+			continue // the scratch file
+		}
+		n++
+		cut := map[Edge]bool{}
+		nStat := 0
+		factEdges(fn, func(e Edge, f Fact) {
+			if f.Kind != "nil" {
+				return
+			}
+			cv := callValue(f.V)
+			if cv == nil || calleeName(&cv.Call) != "os.Stat" {
+				return
+			}
+			if ex, ok := f.V.(*ssa.Extract); !ok || ex.Index != 1 {
+				return
+			}
+			if P.sym(cv.Call.Args[0]) != dsym {
+				return
+			}
+			nStat++
+			if !f.Holds { // err != nil: the file does not exist → keep only the "exists" paths
+				cut[e] = true
+			}
+		})
+		R.check(nStat > 0 && !reachable(fn, cut)[ci.Block()], "create-no-overwrite", fmt.Sprintf("%s: %s #%d", fname(fn), name, nCreateIn(fn, ci)), P.ipos(ci),
+			"unreachable when Stat found the account file", fmt.Sprintf("the account file %s is written although nothing established that it does not exist yet (Stat of that path: %d test(s)); a login that cleans to an existing account's file name replaces that account", dsym, nStat))
+	}
+	if n == 0 {
+		R.und("create-no-overwrite", fname(fn), P.pos(fn.Pos()), "no publishing step (rename / write of the account file) found in Create")
+	}
 }
